@@ -353,7 +353,20 @@ func runGroup(g group) string {
 				setYield(p.yield)
 			}
 			before := runtime.NumGoroutine()
+			// a long list is hashed under a SMALL limit of open files: the hasher needs one descriptor per worker, not per path
+			restore := func() {}
+			if len(paths) >= 1500 {
+				var lim syscall.Rlimit
+				if syscall.Getrlimit(syscall.RLIMIT_NOFILE, &lim) == nil && lim.Cur > 400 {
+					old := lim
+					lim.Cur = 400
+					if syscall.Setrlimit(syscall.RLIMIT_NOFILE, &lim) == nil {
+						restore = func() { _ = syscall.Setrlimit(syscall.RLIMIT_NOFILE, &old) }
+					}
+				}
+			}
 			o := safeHash(paths)
+			restore()
 			calls++
 			seen[o] = true
 			// the feeder and the waiter may legitimately still be on their way out: give them a moment
